@@ -4,7 +4,7 @@ package lexer
 // operations.  Base case + one inductive step per operation from an
 // arbitrary state that satisfies the representation invariant.
 
-const vhMaxTokens = 4 // overridden per tier by the check script (sed)
+const vhMaxTokens = 4 // @tier quick=4 thorough=7
 
 const (
 	vhElideA TokenType = -2
